@@ -8,11 +8,15 @@ for n in names:
     patch = os.path.join(d, 'patch.diff')
     if not os.path.exists(patch):
         continue
-    t = subprocess.run(['/verif/tools/try_patch.sh', patch], stdout=subprocess.PIPE, stderr=subprocess.STDOUT, text=True).stdout
+    m0 = json.load(open(os.path.join(d, 'meta.json')))
+    ids = [m0['property']] if os.environ.get('OWN_ONLY') else []
+    t = subprocess.run(['/verif/tools/try_patch.sh', patch] + ids, stdout=subprocess.PIPE, stderr=subprocess.STDOUT, text=True).stdout
     caught = [l for l in t.splitlines() if l.startswith('CAUGHT-BY:')]
     caught = caught[0][len('CAUGHT-BY:'):].split() if caught else []
     errs = [l.split(':')[0] for l in t.splitlines() if ' ERROR ' in l or l.strip().endswith('ERROR')]
     m = json.load(open(os.path.join(d, 'meta.json')))
+    if os.environ.get('OWN_ONLY'):
+        m['caught_by_other_checks_earlier_run'] = [c for c in m.get('caught_by', []) if c != m['property']]
     m['caught_by'] = caught
     m['caught_by_own_property_check'] = m['property'] in caught
     m['check_errors'] = errs
